@@ -33,8 +33,24 @@ def combos():
     return out
 
 
+def workdir():
+    """private directory under the build tree: bin/build.sh wipes <build>/zoo and <build>/<flavour>/bin whenever any flavour is
+    rebuilt (other checks run concurrently), so the files and the executor of a running C10 check live here instead"""
+    d = os.path.join(vlib.BUILD, 'c10')
+    os.makedirs(d, exist_ok=True)
+    return d
+
+
+def private_exe():
+    exe = vlib.harness('plain', HARNESS)
+    data = open(exe, 'rb').read()
+    path = atomic_write(HARNESS + '.' + (vlib._key or 'x'), data)
+    os.chmod(path, 0o755)
+    return path
+
+
 def atomic_write(name, data):
-    path = os.path.join(vlib.zoo_dir(), name)
+    path = os.path.join(workdir(), name)
     if os.path.exists(path) and open(path, 'rb').read() == data:
         return path
     tmp = path + '.%d.tmp' % os.getpid()
@@ -133,6 +149,7 @@ class Runner:
         self.groups = {}      # (phase, file, path) -> dict(n=, hit=, ok=)
         self.viol_counts = {}
         self.samples = []
+        self.machinery = []   # executor could not run at all (exit 2 of the harness = its own set-up failed)
 
     def case(self, f, path, api, req, cap, cuts):
         return f'{f} {path} {api} {req} {cap} {len(cuts)}' + ''.join(' %s' % c for c in cuts)
@@ -170,6 +187,11 @@ class Runner:
                 g['maxR'] = max(g['maxR'], int(fl.get('R', 0)))
                 g['maxC'] = max(g['maxC'], int(fl.get('C', 0)))
                 g['maxB'] = max(g.get('maxB', 0), int(fl.get('B', 0)))
+            if st in ('DIED', 'NOOUTPUT', 'BADCASE') and ('rc=2 ' in fl.get('raw', '') or st != 'DIED') and not self.machinery:
+                # the executor itself could not work (input file / binary removed under it, malformed case): a broken run, not a verdict
+                self.machinery.append(f'{st} on "{c}": {fl.get("raw", "")[:200]}')
+            if st in ('NOOUTPUT', 'BADCASE') or (st == 'DIED' and 'rc=2 ' in fl.get('raw', '')):
+                continue
             if st != 'ok':
                 if not row:
                     g['bad'] += 1
@@ -219,7 +241,7 @@ def run(tier):
     # internal deadline (seconds); C10_DEADLINE_S overrides it for measurement runs on an overloaded machine
     deadline = chk.t0 + float(os.environ.get('C10_DEADLINE_S') or (140 if not thorough else 19 * 60))
     vlib.build('plain')
-    exe = vlib.harness('plain', HARNESS)
+    exe = private_exe()
     files = make_files()
     R = Runner(chk, exe, files)
     phases = {}
@@ -338,6 +360,8 @@ def run(tier):
     b = vlib.run_cases(exe, probe, R.fa, jobs=2, tag='c10y')
     chk.guard(a == b and all(x for x in a), 'replaying probe cases twice gives identical observations')
 
+    chk.guard(not R.machinery, 'executor machinery intact (no harness set-up failure): %r' % (R.machinery[:1],))
+
     # ---- coverage facts / vacuity guards (only for phases that ran to completion)
     G = R.groups
     chk.guard(complete.get('default') and phases.get('caps', 0) > 0, 'the default-schedule phase ran to completion and the cap enumeration started')
@@ -392,7 +416,7 @@ def run(tier):
 def replay(path):
     r = json.load(open(path))
     vlib.build('plain')
-    exe = vlib.harness('plain', HARNESS)
+    exe = private_exe()
     files = make_files()
     out = vlib.run_cases(exe, [r['replay']['case']], fixed_args(files), jobs=1, tag='c10r')
     print('case    :', r['replay']['case'])
